@@ -322,7 +322,17 @@ func walkExtern(x *X, s *State, c *ssa.CallCommon, a []Val, call ssa.Value) (Val
 	}
 	s.assume(fmt.Sprintf("(< %s 281474976710656)", n))
 	valAt := func(j string) Val { return g.rec(keyAt(j)).V }
+	var extraAt0 func(idx string) map[string]Val
 	extraAt := func(idx string) map[string]Val {
+		m := extraAt0(idx)
+		for i, fv := range clo.Fn.FreeVars {
+			if p, ok := clo.Bind[i].(Ptr); ok {
+				m[fv.Name()] = CellRef{p}
+			}
+		}
+		return m
+	}
+	extraAt0 = func(idx string) map[string]Val {
 		return map[string]Val{"idx": iv(idx), "walkN": iv(n), "walkKey": WalkFn{func(j string) Val {
 			ks := keyAt(j)
 			if len(ks) == 1 {
@@ -338,8 +348,8 @@ func walkExtern(x *X, s *State, c *ssa.CallCommon, a []Val, call ssa.Value) (Val
 		x.emit(s, "invariant.init", fmt.Sprintf("walk%d.inv%d.init", ord, k), cl.Labels, gl, cl.Text)
 	}
 	// havoc the captured cells the callback writes
-	for _, b := range clo.Bind {
-		if p, ok := b.(Ptr); ok && p.Obj != 0 && closureWrites(clo.Fn, b, clo) {
+	for bi, b := range clo.Bind {
+		if p, ok := b.(Ptr); ok && p.Obj != 0 && closureWrites(clo.Fn, bi) {
 			cur := pathGet(s.objs[p.Obj], p.Path)
 			s.objs[p.Obj] = pathSet(s.objs[p.Obj], p.Path, x.havocLike(s, "w.cell", nil, cur))
 		}
@@ -384,22 +394,19 @@ func walkExtern(x *X, s *State, c *ssa.CallCommon, a []Val, call ssa.Value) (Val
 // WalkFn gives contract access to the listing: walkKey(j), walkVal(j).
 type WalkFn struct{ F func(j string) Val }
 
-func closureWrites(fn *ssa.Function, b Val, clo Clo) bool {
-	for i, fv := range fn.FreeVars {
-		if clo.Bind[i] != b {
-			continue
-		}
-		if refs := fv.Referrers(); refs != nil {
-			for _, r := range *refs {
-				switch r.(type) {
-				case *ssa.Store:
-					return true
-				case *ssa.FieldAddr, *ssa.IndexAddr:
-					return true
-				case *ssa.UnOp:
-					// a loaded pointer (e.g. genesis *GenesisState) written through
-					return true
+func closureWrites(fn *ssa.Function, bi int) bool {
+	fv := fn.FreeVars[bi]
+	if refs := fv.Referrers(); refs != nil {
+		for _, r := range *refs {
+			switch r.(type) {
+			case *ssa.Store, *ssa.FieldAddr, *ssa.IndexAddr, *ssa.UnOp:
+				// stored to directly, or a loaded pointer (e.g. the genesis object) that may be written through
+				if _, isLoad := r.(*ssa.UnOp); isLoad {
+					if _, ptr := fv.Type().(*types.Pointer).Elem().Underlying().(*types.Pointer); !ptr {
+						continue
+					}
 				}
+				return true
 			}
 		}
 	}
@@ -426,3 +433,6 @@ func (k *walkKont) resume(x *X, s *State, res []Val) {
 	}
 	x.paths++
 }
+
+// CellRef names a captured variable in walk invariants: its value is read from the state at evaluation time.
+type CellRef struct{ P Ptr }
